@@ -198,7 +198,8 @@ def args_as_given_rule(fi):
         isinstance(g.iter, ast.Name) and g.iter.id == "args" for g in n.generators)]
     comps = [c for c in comps if isinstance(c.generators[0].target, ast.Name) and
              any(isinstance(x, ast.Name) and x.id == c.generators[0].target.id for x in ast.walk(c.elt)) and
-             not (isinstance(c.elt, ast.Call) and isinstance(c.elt.func, ast.Name))]
+             not (isinstance(c.elt, ast.Call) and isinstance(c.elt.func, ast.Name)) and
+             not isinstance(c.elt, (ast.Compare, ast.BoolOp, ast.UnaryOp))]     # boolean tests over the elements are validation, not forwarding
     if not comps:
         return [unrecognised("ARGS-GIVEN", fi, role, "no comprehension that selects from the elements of `args`")]
     out = []
